@@ -155,6 +155,11 @@ class ConstEval:
         if isinstance(n, ast.BinOp):
             a, b = self.ev(n.left, local), self.ev(n.right, local)
             if any(isinstance(x, (Sym, CallVal)) for x in (a, b)):
+                hook = getattr(self, "binop_hook", None)
+                if hook is not None:
+                    r = hook(n.op, a, b)
+                    if r is not None:
+                        return r
                 return Sym(src(n))
             try:
                 return _binop(n.op, _num(a), _num(b))
@@ -212,6 +217,11 @@ class ConstEval:
                     return StructVal(f)
             args = tuple(self.ev(a, local) for a in n.args)
             kwargs = tuple((k.arg or "**", self.ev(k.value, local)) for k in n.keywords)
+            hook = getattr(self, "call_hook", None)
+            if hook is not None:
+                r = hook(n, fn, args, dict(kwargs), local)
+                if r is not None:
+                    return r
             return CallVal(fn, args, kwargs)
         if isinstance(n, ast.JoinedStr):
             return Sym(src(n))
